@@ -18,13 +18,15 @@ func withAxis(p V, ax int, u float64) V {
 }
 
 func checkToolbox(c *vlib.Case, s *spec) {
+	tl := newTally(c)
+	defer tl.flush()
 	rng := c.Rng
 	name := s.name(3)
 	t := s.adapter(3)
 	r := s.ref()
 	ax := s.Ax
 	pre := "toolbox." + s.Kind + "."
-	c.Count(pre+"transforms", 1)
+	tl.Count(pre+"transforms", 1)
 	c.Nontrivial(fmt.Sprintf("toolbox|%v", s.describe()))
 
 	// interesting axis range
@@ -66,7 +68,7 @@ func checkToolbox(c *vlib.Case, s *spec) {
 		M := 1 + a.M
 
 		// identity off the axis (exact: the other coordinates are not touched)
-		c.Count(pre+"off_axis", 2)
+		tl.Count(pre+"off_axis", 2)
 		for j := 0; j < 3; j++ {
 			if j != ax && (y1[j] != p1[j] || y2[j] != p2[j]) {
 				c.Violationf(name+"/identity-off-axis", wit(s, "p", p1, "t(p)", y1), "coordinate %d changed although the map acts along axis %d", j, ax)
@@ -79,7 +81,7 @@ func checkToolbox(c *vlib.Case, s *spec) {
 				"same axis value %v maps to %v and %v depending on the other coordinates", u1, y1[ax], yo[ax])
 		}
 		// monotone along the axis
-		c.Count(pre+"monotone_pairs", 1)
+		tl.Count(pre+"monotone_pairs", 1)
 		if y2[ax] < y1[ax]-1e-12*M {
 			c.Violationf(name+"/monotone", wit(s, "p1", p1, "p2", p2, "t(p1)", y1, "t(p2)", y2),
 				"axis values %.17g < %.17g map to %.17g > %.17g", u1, u2, y1[ax], y2[ax])
@@ -101,7 +103,7 @@ func checkToolbox(c *vlib.Case, s *spec) {
 			default:
 				continue
 			}
-			c.Count(pre+"slope_pairs", 1)
+			tl.Count(pre+"slope_pairs", 1)
 			want := slope * (u2 - u1)
 			if !(math.Abs((y2[ax]-y1[ax])-want) <= relTol*M*math.Max(1, s.Ratio)) {
 				c.Violationf(name+"/length-ratio", wit(s, "u1", u1, "u2", u2, "t(u1)", y1[ax], "t(u2)", y2[ax], "slope", slope),
@@ -111,7 +113,7 @@ func checkToolbox(c *vlib.Case, s *spec) {
 			cen := (s.Lo + s.Hi) / 2
 			for _, pr := range [][2]float64{{u1, y1[ax]}, {u2, y2[ax]}} {
 				u, y := pr[0], pr[1]
-				c.Count(pre+"doc_points", 1)
+				tl.Count(pre+"doc_points", 1)
 				tol := relTol * M
 				switch {
 				case u < s.Lo || u > s.Hi:
@@ -181,7 +183,7 @@ func checkToolbox(c *vlib.Case, s *spec) {
 			if x.slope != 1 {
 				kind = "squeezable"
 			}
-			c.Count(pre+"stretch_pairs."+kind, 1)
+			tl.Count(pre+"stretch_pairs."+kind, 1)
 			if !(math.Abs((y2[ax]-y1[ax])-want) <= relTol*(1+a.M)*a.F) {
 				c.Violationf(name+"/length-ratio", wit(s, "u1", u1, "u2", u2, "t(u1)", y1[ax], "t(u2)", y2[ax], "slope", x.slope, "stretch", fmt.Sprint(x.a, x.b)),
 					"length %.17g inside the %s stretch [%.17g, %.17g] became %.17g, expected slope %.17g", u2-u1, kind, x.a, x.b, y2[ax]-y1[ax], x.slope)
@@ -191,7 +193,7 @@ func checkToolbox(c *vlib.Case, s *spec) {
 }
 
 func toolboxSections(r *vlib.Run) {
-	r.Section("toolbox", r.N(9000, 180000), vlib.SectionOpts{}, func(c *vlib.Case) {
+	r.Section("toolbox", r.N(24000, 300000), vlib.SectionOpts{}, func(c *vlib.Case) {
 		kind := []string{"squeeze", "pinch", "smart"}[c.Index%3]
 		checkToolbox(c, genLeaf(c.Rng, genOpts{dim: 3, mild: true}, kind))
 	})
